@@ -42,6 +42,13 @@ def check_impl(line, res):
             if x == 1 and res != str(y): return bad('gmul(1,b) != b')
             if (x == 0 or y == 0) and res != '0': return bad('product with 0 is not 0')
         return None
+    if op == 'aes.gmulc':
+        x, y = int(a[0]), int(a[1])
+        if x < 256 and y < 256:
+            l, r = res.split(';')
+            if l != r: return bad('gmul(%d,%d) = %s but gmul(%d,%d) = %s' % (x, y, l, y, x, r))
+            if l != str(C.ref_mul(x, y)): return bad('%d*%d in GF(2^8) is %d, got %s' % (x, y, C.ref_mul(x, y), l))
+        return None
     if op == 'aes.keyschedule':
         k = unhx(a[0])
         if len(k) not in C.KEYLENS: return None if res == 'ERR' else bad('key size must be rejected')
@@ -83,6 +90,9 @@ def gmul_lines(tier, rng):
         for _ in range(3000): yield 'aes.gmul %d %d' % (rng.randrange(256), rng.randrange(256)), 'aes.gmul/sample'
     for x, y in ((256, 1), (1, 256), (300, 0), (0, 300), (255, 255), (1000, 1000)):
         yield 'aes.gmul %d %d' % (x, y), 'aes.gmul/out-of-range'
+    for _ in range(1000 if tier == 'quick' else 8000):
+        yield 'aes.gmulc %d %d' % (rng.randrange(256), rng.randrange(256)), 'aes.gmulc/commutativity-sample'
+    for x in (0, 1, 2, 255): yield 'aes.gmulc %d %d' % (x, 255 - x), 'aes.gmulc/commutativity-sample'
 
 
 def comp_lines(tier, rng):
@@ -115,6 +125,7 @@ def cases(tier, rng):
             yield 'aes.dec %s %s' % (hx(k), hx(b)), 'search'
             yield 'aes.keyschedule ' + hx(k), 'search'
             yield 'aes.gmul %d %d' % (rng.randrange(256), rng.randrange(256)), 'search'
+            yield 'aes.gmulc %d %d' % (rng.randrange(256), rng.randrange(256)), 'search'
             yield 'aes.%s %s' % (rng.choice(C.COMP), hx(b)), 'search'
             if rng.random() < 0.1:
                 yield 'aes.enc %s %s' % (hx(C.rb(rng, rng.choice(C.BAD_KEYLENS))), hx(b)), 'search'
